@@ -17,7 +17,7 @@
 // "runtime error:" line is reported as  V <op> <crashSig(op, "ubsan")>.
 //
 // hbf::event(name) records a fact for vacuity guards; facts of all workers are collected in shared memory and
-// written once to the file "events.<pid>" in the working directory when the driver ends.
+// appended to the file "events.<driver pid>" in the working directory when first seen.
 #pragma once
 #include <fcntl.h>
 #include <set>
@@ -30,6 +30,7 @@
 
 namespace hbf {
   struct Shared {
+    volatile long driverPid;
     volatile long itemIndex;
     volatile long opIndex;
     volatile char opText[96];
@@ -52,23 +53,14 @@ namespace hbf {
     s->events[s->used + name.size()] = '\n';
     s->events[s->used + name.size() + 1] = 0;
     s->used += name.size() + 1;
+    // also append it to the driver's events file right away: a driver killed by the runner's timeout keeps its facts
+    char fn[64];
+    snprintf(fn, sizeof fn, "events.%ld", (long) s->driverPid);
+    int fd = open(fn, O_WRONLY | O_CREAT | O_APPEND, 0600);
+    if (fd >= 0) { const std::string l = name + "\n"; ssize_t w = write(fd, l.c_str(), l.size()); (void) w; close(fd); }
   }
 
-  inline void writeEvents() {
-    Shared *s = shared();
-    std::set<std::string> all = localEvents();
-    if (s && s->used) {
-      std::string buf(s->events, s->used), cur;
-      for (char ch : buf) { if (ch == '\n') { if (!cur.empty()) all.insert(cur); cur.clear(); } else cur += ch; }
-    }
-    if (all.empty()) return;
-    char fn[64];
-    snprintf(fn, sizeof fn, "events.%d", (int) getpid());
-    FILE *f = fopen(fn, "w");
-    if (!f) return;
-    for (auto &e : all) fprintf(f, "%s\n", e.c_str());
-    fclose(f);
-  }
+  inline void writeEvents() {}   // facts are appended to events.<driver pid> as they are first seen
 
   inline std::string crashClass(const std::string &err) {
     if (err.find("AddressSanitizer") != std::string::npos) {
@@ -172,6 +164,7 @@ namespace hbf {
     if (sh == MAP_FAILED) { perror("mmap"); return 2; }
     memset((void*) sh, 0, sizeof(Shared));
     shared() = sh;
+    sh->driverPid = (long) getpid();
     char errPath[64];
     snprintf(errPath, sizeof errPath, "worker-stderr.%d", (int) getpid());
 
